@@ -79,14 +79,20 @@ def check_sigchld(ctx, rep, fsig, rule):
         if isinstance(w.ast, ast.Assign) and isinstance(w.ast.targets[0], (ast.Tuple, ast.List)) and w.ast.targets[0].elts \
                 and isinstance(w.ast.targets[0].elts[0], ast.Name):
             pidvars.add(w.ast.targets[0].elts[0].id)
+        # `pid = os.waitpid(...)[0]`
+        if isinstance(w.ast, ast.Assign) and isinstance(w.ast.targets[0], ast.Name) and isinstance(w.ast.value, ast.Subscript) and \
+                ctx.try_fold(w.ast.value.slice) == 0 and A.find_calls(w.ast.value.value, "os.waitpid"):
+            pidvars.add(w.ast.targets[0].id)
     exits_on_pid = False
     for n in g.live:
-        if n.kind == "test" and isinstance(n.ast, ast.Compare) and isinstance(n.ast.left, ast.Name) and n.ast.left.id in pidvars \
+        direct = n.kind == "test" and isinstance(n.ast, ast.Compare) and isinstance(n.ast.left, ast.Subscript) and \
+            ctx.try_fold(n.ast.left.slice) == 0 and bool(A.find_calls(n.ast.left.value, "os.waitpid"))
+        if n.kind == "test" and isinstance(n.ast, ast.Compare) and (direct or (isinstance(n.ast.left, ast.Name) and n.ast.left.id in pidvars)) \
                 and ctx.try_fold(n.ast.comparators[0]) in (0, 1):
             for t, l in n.succ:
                 if l in ("true", "false"):
                     r = Q.reach([t], labels=("next", "true", "false"))
-                    if not (set(wp) & r):
+                    if not (set(wp) & r) or (direct and g.exit in r and not (set(wp) - {n}) & r):
                         exits_on_pid = True
     rep.ob(rule, "ForkingServer._handle_sigchld: the reaping loop ends when no child has exited (pid <= 0)", exits_on_pid,
            "the loop is left on a comparison of the returned pid with 0" if exits_on_pid else
@@ -549,7 +555,7 @@ def run(ctx, rep):
         for c in cons:
             ch = c.args[0] if c.args else None
             ok = isinstance(ch, ast.Call) and A.call_name(ch) == "Channel" and ch.args and isinstance(ch.args[0], ast.Call) \
-                and A.call_name(ch.args[0]) == "SocketStream" and A.src(ch.args[0].args[0]) == A.params(f.node)[1] \
+                and A.call_name(ch.args[0]) == "SocketStream" and A.src(ch.args[0].args[0]) in A.params(f.node)[1:] \
                 and not A.in_loop(c, f.node)
             rep.ob("R16.3", "%s: one fresh channel over the accepted socket per connection" % q.split(".")[-1], ok,
                    "self.service._connect(Channel(SocketStream(sock)), config)" if ok else
